@@ -38,22 +38,22 @@ Definition sexpr_eqb (a b: sexpr) : bool :=
   | _, _ => false end.
 
 (* locals: None = the MISSING sentinel (or not yet bound) *)
-Record fst := { l_value : option pv; l_field : option pv; l_kw : option pv }.
-Definition fst0 : fst := {| l_value := None; l_field := None; l_kw := None |}.
-Definition get_t (t: tgt) (st: fst) : option pv := match t with TValue => l_value st | TField => l_field st end.
-Definition set_t (t: tgt) (x: option pv) (st: fst) : fst :=
+Record flocals := { l_value : option pv; l_field : option pv; l_kw : option pv }.
+Definition flocals0 : flocals := {| l_value := None; l_field := None; l_kw := None |}.
+Definition get_t (t: tgt) (st: flocals) : option pv := match t with TValue => l_value st | TField => l_field st end.
+Definition set_t (t: tgt) (x: option pv) (st: flocals) : flocals :=
   match t with
   | TValue => {| l_value := x; l_field := l_field st; l_kw := l_kw st |}
   | TField => {| l_value := l_value st; l_field := x; l_kw := l_kw st |} end.
-Definition set_kw (x: pv) (st: fst) : fst := {| l_value := l_value st; l_field := l_field st; l_kw := Some x |}.
+Definition set_kw (x: pv) (st: flocals) : flocals := {| l_value := l_value st; l_field := l_field st; l_kw := Some x |}.
 Definition missing_obj : pv := VOther "MISSING".
 Definition obj_of (o: option pv) : pv := match o with Some v => v | None => missing_obj end.
 
 Section ListRun.
   (* [run prev s st]: prev = the statement before s was an `if` whose test failed; result: new locals and the same
      flag for the next statement *)
-  Variable run : bool -> fstmt -> fst -> res (fst * bool).
-  Fixpoint run_list (prev: bool) (l: list fstmt) (st: fst) {struct l} : res fst :=
+  Variable run : bool -> fstmt -> flocals -> res (flocals * bool).
+  Fixpoint run_list (prev: bool) (l: list fstmt) (st: flocals) {struct l} : res flocals :=
     match l with
     | [] => Ok st
     | s :: r => match run prev s st with
@@ -73,16 +73,16 @@ Section RunField.
     | KName => match fs_key2 f with Some k2 => k2 | None => fs_name f end
     end.
 
-  Definition eval (e: sexpr) (st: fst) : res pv :=
+  Definition eval (e: sexpr) (st: flocals) : res pv :=
     match e with
     | EUnpack => fs_dec f (obj_of (l_value st))
     | ETgt t => Ok (obj_of (get_t t st))
     | ENone => Ok VNone end.
 
-  Definition branch (taken: bool) (r: res fst) (st: fst) : res (fst * bool) :=
+  Definition branch (taken: bool) (r: res flocals) (st: flocals) : res (flocals * bool) :=
     if taken then match r with Ok st' => Ok (st', false) | Exn e => Exn e end else Ok (st, true).
 
-  Fixpoint run_s (prev: bool) (s: fstmt) (st: fst) {struct s} : res (fst * bool) :=
+  Fixpoint run_s (prev: bool) (s: fstmt) (st: flocals) {struct s} : res (flocals * bool) :=
     match s with
     | SGet t k => match py_get d (key_of k) with
                   | Exn e => Exn e
@@ -105,7 +105,7 @@ Section RunField.
   (* the whole block; what the constructor call receives for this field: kwargs.get(name) if the block writes to
      kwargs (None: the key is not in kwargs, the dataclass default applies), else the local __name *)
   Definition run_block (in_kwargs: bool) (b: list fstmt) : res (option pv) :=
-    match run_list run_s false b fst0 with
+    match run_list run_s false b flocals0 with
     | Exn e => Exn e
     | Ok st => Ok (if in_kwargs then l_kw st else l_field st) end.
 End RunField.
